@@ -316,7 +316,18 @@ func solveAll(prelude string, opaque map[string]string, frs []*FuncResult, lemma
 		for _, r := range l.Reveal {
 			extra += opaque[r]
 		}
-		jobs = append(jobs, job{o, "(set-logic ALL)\n" + prelude + extra + "; ---- lemma " + l.Name + " ----\n" + l.Body + "(check-sat)\n", len(results) - 1})
+		// statements of earlier lemmas this one cites (resolved when the file was loaded)
+		extra += l.UsesText
+		badCite := l.BadCite != ""
+		if badCite {
+			o.Desc += " [bad citation " + l.BadCite + ": the cited lemma must come earlier and have a ;@provides statement]"
+		}
+		body := l.Body
+		if badCite {
+			body = "; bad citation: nothing is refuted\n" // check-sat answers sat/unknown: not discharged
+		}
+		// lemmas are about the specification functions themselves: native recursive definitions
+		jobs = append(jobs, job{o, "(set-logic ALL)\n" + unfuel(stripAxioms(prelude, l.Proves, o)+extra) + "; ---- lemma " + l.Name + " ----\n" + body + "(check-sat)\n", len(results) - 1})
 	}
 	var wg sync.WaitGroup
 	var mu sync.Mutex
@@ -440,4 +451,22 @@ func solveOne(o *Obligation, file string, cfg solveConfig) *SolveResult {
 		}
 	}
 	return res
+}
+
+
+// stripAxioms removes the named axioms (the ones a lemma is about to prove)
+// from the prelude; a name that does not occur makes the lemma undischargeable.
+func stripAxioms(prelude string, names []string, o *Obligation) string {
+	for _, n := range names {
+		b := ";@axiom-begin " + n + "\n"
+		e := ";@axiom-end " + n + "\n"
+		i := strings.Index(prelude, b)
+		j := strings.Index(prelude, e)
+		if i < 0 || j < i {
+			o.Desc += " [axiom " + n + " not found in the specification]"
+			return "" // an empty prelude: the lemma body cannot even be parsed, the lemma stays undischarged
+		}
+		prelude = prelude[:i] + prelude[j+len(e):]
+	}
+	return prelude
 }
